@@ -10,7 +10,7 @@ import common
 import pyir_circuit
 import pyir_translate
 
-THEOREMS = ["consume_ir_correct", "remaining_ir_correct", "init_ir_correct", "ir_run_correct"]
+THEOREMS = ["consume_ir_correct", "remaining_ir_correct", "init_ir_correct", "ir_run_correct", "source_meets_spec"]
 
 
 def budget_tie(chk):
@@ -46,7 +46,8 @@ def budget_tie(chk):
 
 
 CIRCUIT_THEOREMS = ["init_ir_correct", "state_ir_correct", "allow_ir_correct", "record_success_ir_correct", "record_failure_ir_correct",
-                    "record_cancel_ir_correct", "krun_ir_correct"]
+                    "record_cancel_ir_correct", "krun_ir_correct", "source_meets_spec", "source_open_rejects",
+                    "source_probe_in_flight_rejects", "source_recovery_admits_one_probe"]
 
 
 def circuit_tie(chk):
